@@ -72,7 +72,10 @@ func NewShared() *Shared {
 		b, _ := e.Bytes()
 		s.Graphics = append(s.Graphics, append([]byte(nil), b...))
 	}
-	s.Options = []decode.DecodeOption{decode.WithPalette(s.Palette), decode.WithColorAt(2, color.NRGBA{0x80, 0x40, 0x20, 0x80})}
+	// a prefix of a longer list: the slice the decoders are handed has spare capacity
+	all := make([]decode.DecodeOption, 2, 5)
+	all[0], all[1] = decode.WithPalette(s.Palette), decode.WithColorAt(2, color.NRGBA{0x80, 0x40, 0x20, 0x80})
+	s.Options = all
 	return s
 }
 
@@ -194,7 +197,7 @@ var Bodies = []Body{
 		c, n := e.CSel(), e.NSel()
 		e.SetCReg(0, true, ivg.BlendColor(0x40, 0x81, 0xc0))
 		e.StartPath(1, -3, float32(g))
-		for i := 0; i < 20; i++ {
+		for i := 0; i < 132; i++ { // one run of 264 pending operands
 			e.RelLineTo(1, float32(i%3))
 		}
 		for i := 0; i < 5; i++ {
